@@ -4,6 +4,9 @@ import json, os
 V = "/verif"
 CLAIMED = {
  # id: (clause text, technique, level_note, design_ref)
+ "C06": ("Decides the structural mechanism of isolation for all interleavings at ABCI-call granularity: an exec-context analysis labels every program point of every function reachable from an ABCI entry with the set of contexts (consensus T / CheckTx F / Query Q) it can run in, refined by dominating tests of the exec flag; consensus-overlay ledger methods are called only at T points and mempool-overlay methods never at T points (both arms of the method-value idiom, same ledger); every value bound to an exec parameter or stored as the flag is the flag itself or a constant that agrees with the calling context; no in-memory controller state is written outside T; the live EVM state is touched only at T; every successful ledger commit resets the mempool overlay. It does not decide sub-call races.",
+         "interprocedural exec-context (typestate-like) dataflow over SSA + repaired VTA call graph; who-may-write rule on controller-state fields; must-pass-through on FinalityLedger.Commit",
+         "trusted: go/ssa, call graph (closures take the context of their creation point; go-ethereum's callbacks into StateDBWrapper are modelled at every ApplyMessage site); the query-side StateDBWrapper is the scratch one (C17 E-5)", "DESIGN.md §3 C06"),
  "C03": ("Decides the structural mechanisms behind signature authorisation for every transaction at once: verification (for the context's tx and the node's chain id) dominates execution on the exec=true path with no bypass; the recovered address is compared in full with the sender; the signed pre-image is prefix(chainId,len) ++ RLP(tx) and its encoder covers every field of Trx and of every payload, with only widening integer conversions, full 256-bit values and single RLP items (so the encoding is injective in the executed fields); the wire decoder fills every executed field and reader/writer tables agree. It does not decide cryptographic strength.",
          "SSA guard/dominance rules on the validation chain + AST/type field-coverage of the RLP encoders and proto decoders + conversion-width lint + sibling-table agreement (fromProto / DecodeRLP / Type())",
          "trusted: go-ethereum rlp and SigToPub, SHA-256, protobuf; structural clause only (level other)", "DESIGN.md §3 C03"),
